@@ -120,7 +120,3 @@ package ws
 // ---- C12: a listener whose Listen failed still answers Address() ----
 //@ func (*listener).Listen
 //@   at go:Listen$1#1 assume l.bound != nil
-
-// ---- C12/C11: a TLS configuration that is a nil pointer is "no configuration", not a crash ----
-//@ func (*listener).Listen
-//@   at if#5.else assert is_type(v, "*crypto/tls.Config") ==> cast("*crypto/tls.Config", v) != nil
